@@ -145,10 +145,7 @@ theorem step_ok {w : World} (hinv : Inv w) (op : Op) (hin : inContract w op = tr
     · rename_i xs hl
       exact stepOK_seq hinv c _ .probe _ _ _ xs (oldToks_of_lookup hl) (cons_arrayPushAt _ _ _ _)
     · rename_i xs hl
-      have hok : (listPushAt w.next xs i p).out = .ok := by
-        simp only [inContract, hl] at hin
-        simpa using hin
-      exact stepOK_seq hinv c _ .probe _ _ _ xs (oldToks_of_lookup hl) (cons_listPushAt _ _ _ _ hok)
+      exact stepOK_seq hinv c _ .probe _ _ _ xs (oldToks_of_lookup hl) (cons_listPushAt _ _ _ _)
     · exact stepOK_bad hinv
   | pop c =>
     simp only [step]
